@@ -8,6 +8,7 @@ import (
 	"context"
 	"errors"
 	"syscall"
+	"time"
 
 	eth2api "github.com/attestantio/go-eth2-client/api"
 
@@ -17,32 +18,87 @@ import (
 
 func init() { VerifHarnesses["VerifC19Provide"] = VerifC19Provide }
 
-// vForkJoin: ideal forkjoin.New[provideArgs,int]: workers are run when join() is called, results are delivered in the
-// completion order fixed by vOrder (a permutation of the forked inputs), then the channel is closed.
-var vOrder []int
+// vForkJoin: ideal forkjoin.New[provideArgs,int] honouring the worker-count and fail-fast options the caller passes:
+// inputs are taken from a FIFO queue by "workers" workers; a hung node (kind 7) keeps its worker for ever, so an input
+// starts iff fewer than "workers" hung inputs precede it. Results of the started, non-hung inputs are delivered in the
+// completion order fixed by vOrder; with fail-fast, results after the first error are context.Canceled. The channel is
+// closed when every input delivered; if some input never delivers (hung, or never started) the channel stays open and
+// the reader blocks - unless the caller's context is cancelled (vCancelAtJoin), in which case the remaining inputs
+// deliver the context's error and the channel closes.
+var (
+	vOrder        []int
+	vCancelAtJoin bool
+	vCancel       context.CancelFunc
+)
 
-func vForkJoin(ctx context.Context, work forkjoin.Work[provideArgs, int], _ ...forkjoin.Option) (forkjoin.Fork[provideArgs], forkjoin.Join[provideArgs, int], context.CancelFunc) {
+func vForkJoin(ctx context.Context, work forkjoin.Work[provideArgs, int], opts ...forkjoin.Option) (forkjoin.Fork[provideArgs], forkjoin.Join[provideArgs, int], context.CancelFunc) {
+	workers, failFast := forkjoin.VerifOptions(opts...)
 	var inputs []provideArgs
 	fork := func(i provideArgs) { inputs = append(inputs, i) }
 	join := func() forkjoin.Results[provideArgs, int] {
 		ch := make(chan forkjoin.Result[provideArgs, int], 8)
-		for _, k := range vOrder {
-			if k < len(inputs) {
-				out, err := work(ctx, inputs[k])
-				ch <- forkjoin.Result[provideArgs, int]{Input: inputs[k], Output: out, Err: err}
+		started := make([]bool, len(inputs))
+		busy := 0
+		for i := range inputs {
+			if busy < workers {
+				started[i] = true
+				if inputs[i].client.(*vNode).kind == 7 {
+					busy++
+				}
 			}
 		}
-		close(ch)
+		if vCancelAtJoin {
+			vCancel()
+		}
+		failed := false
+		missing := 0
+		for _, k := range vOrder {
+			if k >= len(inputs) {
+				continue
+			}
+			if !started[k] || inputs[k].client.(*vNode).kind == 7 {
+				missing++
+				continue
+			}
+			if failed {
+				ch <- forkjoin.Result[provideArgs, int]{Input: inputs[k], Err: context.Canceled}
+				continue
+			}
+			out, err := work(ctx, inputs[k])
+			if failFast && err != nil {
+				failed = true
+			}
+			ch <- forkjoin.Result[provideArgs, int]{Input: inputs[k], Output: out, Err: err}
+		}
+		if missing == 0 {
+			close(ch)
+		} else if ctx.Err() != nil {
+			for _, k := range vOrder {
+				if k < len(inputs) && (!started[k] || inputs[k].client.(*vNode).kind == 7) {
+					ch <- forkjoin.Result[provideArgs, int]{Input: inputs[k], Err: ctx.Err()}
+				}
+			}
+			close(ch)
+		}
 		return ch
 	}
 	return fork, join, func() {}
 }
 
+// vWrapErr: an error with a message that wraps a cause (what errors.Wrap / fmt.Errorf("%w") produce).
+type vWrapErr struct {
+	msg   string
+	cause error
+}
+
+func (e vWrapErr) Error() string { return e.msg + ": " + e.cause.Error() }
+func (e vWrapErr) Unwrap() error { return e.cause }
+
 // vNode: a beacon node as far as provide() is concerned: an address and a scripted outcome.
 type vNode struct {
 	Client
 	id   int
-	kind int // 0 success, 1 plain error, 2 timeout-class, 3 syncing, 4 gateway status, 5 connection refused
+	kind int // 0 success, 1 plain error, 2 timeout-class, 3 syncing, 4 gateway status, 5 connection refused, 6 the node's own request deadline (wrapped context.DeadlineExceeded), 7 hangs
 	code int // http status for kind 4
 }
 
@@ -60,6 +116,8 @@ func (n *vNode) outcome() (int, error) {
 		return 0, errors.New("beacon node is syncing")
 	case 4:
 		return 0, &eth2api.Error{Method: "GET", Endpoint: "/x", StatusCode: n.code}
+	case 6:
+		return 0, vWrapErr{msg: "request failed", cause: context.DeadlineExceeded}
 	}
 	return 0, syscall.ECONNREFUSED
 }
@@ -76,16 +134,18 @@ func vPerm(p, n int) []int {
 }
 
 // VerifC19Provide: np primaries and nf fallbacks; outcome kind per node symbolic (the http status of gateway errors is
-// concrete per case), completion order concrete per case.
+// concrete per case), completion order concrete per case; "cancel"=1: the caller's context is cancelled while the
+// requests are in flight.
 func VerifC19Provide() {
 	np, nf := vrt.Param("np"), vrt.Param("nf")
 	perm, code := vrt.Param("perm"), vrt.Param("code")
+	cancelled := vrt.Param("cancel") == 1
 	mk := func(name string, n, base int) ([]Client, []*vNode) {
 		var cs []Client
 		var ns []*vNode
 		for i := 0; i < n; i++ {
 			k := int(vrt.Byte(vrt.N(name, i)))
-			vrt.Assume(k <= 5)
+			vrt.Assume(k <= 7)
 			nd := &vNode{id: base + i, kind: k, code: code}
 			cs, ns = append(cs, nd), append(ns, nd)
 		}
@@ -93,13 +153,57 @@ func VerifC19Provide() {
 	}
 	prim, pn := mk("prim", np, 0)
 	fall, fn := mk("fall", nf, 10)
+	hangs := func(ns []*vNode) (hung, ok bool) {
+		for _, n := range ns {
+			if n.kind == 7 {
+				hung = true
+			}
+			if n.kind == 0 {
+				ok = true
+			}
+		}
+		return hung, ok
+	}
+	if !cancelled {
+		// a hung node with no successful peer keeps the call waiting until the caller's context ends: that is the
+		// cancel=1 scenario; here every group with a hung node also has a node that answers successfully
+		ph, pok := hangs(pn)
+		fh, fok := hangs(fn)
+		vrt.Assume((!ph || pok) && (!fh || fok))
+	}
 	vOrder = vPerm(perm, 3)
-	calls := 0
-	out, err := provide(context.Background(), prim, fall,
-		func(_ context.Context, a provideArgs) (int, error) {
-			calls++
-			return a.client.(*vNode).outcome()
-		}, nil, nil)
+	ctx, cancel := context.WithCancel(context.Background())
+	vCancelAtJoin, vCancel = cancelled, cancel
+	var out int
+	var err error
+	vrt.MustReturn(func() {
+		out, err = provide(ctx, prim, fall,
+			func(wctx context.Context, a provideArgs) (int, error) {
+				nd := a.client.(*vNode)
+				if !vrt.Symbolic() {
+					// native replay runs the real forkjoin: the scripted behaviour is played out in real time
+					if cancelled {
+						cancel()
+					}
+					if nd.kind == 7 {
+						<-wctx.Done()
+						return 0, wctx.Err()
+					}
+					for rank, k := range vOrder {
+						if k == nd.id%10 {
+							time.Sleep(time.Duration(rank) * 40 * time.Millisecond)
+						}
+					}
+				}
+				return nd.outcome()
+			}, nil, nil)
+	})
+	if cancelled {
+		vrt.Assert("a call whose context is cancelled returns the context's error (and does not block)", err != nil && errors.Is(err, context.Canceled))
+		vrt.Reach("cancelled")
+		vrt.Reach("end")
+		return
+	}
 	// oracle
 	firstOK := -1
 	for _, k := range vOrder {
@@ -114,10 +218,10 @@ func VerifC19Provide() {
 		}
 	}
 	unavailable := func(n *vNode) bool {
-		return n.kind == 2 || n.kind == 3 || n.kind == 5 || (n.kind == 4 && (code == 502 || code == 503 || code == 504))
+		return n.kind == 2 || n.kind == 3 || n.kind == 5 || n.kind == 6 || (n.kind == 4 && (code == 502 || code == 503 || code == 504))
 	}
 	if firstOK >= 0 {
-		vrt.Assert("the call succeeds when a primary answers successfully, with exactly that node's answer (first in completion order)", err == nil && out == 100+firstOK)
+		vrt.Assert("the call succeeds when a primary answers successfully, with exactly that node's answer (first in completion order), without waiting for hung nodes", err == nil && out == 100+firstOK)
 		vrt.Reach("primary success")
 	} else {
 		useFallback := nf > 0 && lastPrim >= 0 && unavailable(pn[lastPrim])
@@ -131,7 +235,7 @@ func VerifC19Provide() {
 				}
 			}
 			if fOK >= 0 {
-				vrt.Assert("fallback nodes are consulted when the failure indicates unavailability", err == nil && out == 110+fOK)
+				vrt.Assert("fallback nodes are consulted when the failure indicates unavailability, and a hung fallback does not keep a healthy one from answering", err == nil && out == 110+fOK)
 				vrt.Reach("fallback success")
 			} else {
 				vrt.Assert("the call fails when the fallbacks fail too", err != nil)
